@@ -80,6 +80,8 @@ const ATOMS: &[(&str, &str)] = &[
     ("Région", "é"),
     ("D5", "日本"),
     ("Org Unit", "x y z"),
+    ("*SEC", "T*P"),
+    ("D*", "*"),
 ];
 
 #[derive(Clone, Debug, Serialize, Deserialize, Hash, PartialEq, Eq)]
@@ -91,7 +93,13 @@ pub struct FormulaCase {
 }
 
 fn atom_name(case: &FormulaCase, i: u8) -> (&'static str, &'static str) {
-    ATOMS[(i as usize + case.rot as usize) % ATOMS.len()]
+    // rotations 0..5 use the first six names (as stored replays expect); 6 and 7 bring in the
+    // names containing `*`
+    if case.rot < 6 {
+        ATOMS[(i as usize + case.rot as usize) % 6]
+    } else {
+        ATOMS[(i as usize + case.rot as usize) % ATOMS.len()]
+    }
 }
 
 fn sp(bits: &mut Bits) -> &'static str {
@@ -148,7 +156,7 @@ fn formula_strategy() -> impl Strategy<Value = FormulaCase> {
             (inner.clone(), inner).prop_map(|(a, b)| F::Or(Box::new(a), Box::new(b))),
         ]
     });
-    (f, any::<u64>(), 0u8..6).prop_map(|(f, shape, rot)| FormulaCase { f, shape, rot })
+    (f, any::<u64>(), 0u8..8).prop_map(|(f, shape, rot)| FormulaCase { f, shape, rot })
 }
 
 fn parse_guarded(s: &str) -> Result<Result<AccessPolicy, String>, Fail> {
@@ -284,7 +292,9 @@ fn tokenize(s: &str) -> Option<Vec<Tok>> {
                     // dimension '::' component, each /[^&|: ]+/ (inner spaces tolerated as in the doc example)
                     let (d, a) = w.split_once("::")?;
                     let (d, a) = (d.trim(), a.trim());
-                    if d.is_empty() || a.is_empty() || d.contains(':') || a.contains(':') || d.contains('*') || a.contains('*') {
+                    // `*` is an ordinary name character of the documented grammar (/[^&|: ]+/); only
+                    // the word `*` alone is the broadcast
+                    if d.is_empty() || a.is_empty() || d.contains(':') || a.contains(':') {
                         return None;
                     }
                     out.push(Tok::Attr(d.to_string(), a.to_string()));
